@@ -22,6 +22,7 @@ import asyncio
 import copy
 import json
 from concurrent.futures import Future
+from corr import C08_world as W08
 
 PROPERTY = "C16"
 RULE = ("cases = (stage outcomes: syntax error | validation error | ambiguous/unknown operation | variable coercion error | "
@@ -881,17 +882,26 @@ def run_real(case, scale=1):
             rt._inner.shutdown(wait=False)
             man = ManualExecutor()
             rt._inner = man
-            fut = process_graphql_query(schema, doc, runtime=rt, **kw)
-            steps = 0
-            while man.queue:
-                steps += 1
-                # every step completes one task; the number of tasks is bounded by the number of fields of the case
-                if steps > stall + 50 * (count_nodes(case["fields"]) + 60):
-                    raise Hang("manual executor does not drain")
-                if _time.monotonic() - t_start > INFRA_SECONDS:
-                    raise InfraBound("%.0f s" % INFRA_SECONDS)
-                i = (sched.pop(0) if sched else 0) % len(man.queue)
-                man.run(i)
+            # single-threaded world: a blocking wait of the code under test on a pending Future can never return - detected
+            # deterministically (C08_world._Deadlock), also when the code swallowed the detector's exception
+            wd = W08.watchdog(seconds=INFRA_SECONDS + 5, single_threaded=True)
+            try:
+                with wd:
+                    fut = process_graphql_query(schema, doc, runtime=rt, **kw)
+                    steps = 0
+                    while man.queue:
+                        steps += 1
+                        # every step completes one task; the number of tasks is bounded by the number of fields of the case
+                        if steps > stall + 50 * (count_nodes(case["fields"]) + 60):
+                            raise Hang("manual executor does not drain")
+                        if _time.monotonic() - t_start > INFRA_SECONDS:
+                            raise InfraBound("%.0f s" % INFRA_SECONDS)
+                        i = (sched.pop(0) if sched else 0) % len(man.queue)
+                        man.run(i)
+            except W08.Watchdog:
+                raise Hang("the code under test blocks the calling thread on a pending Future")
+            if wd.blocked:
+                raise Hang("the code under test blocks the calling thread on a pending Future")
             if not fut.done():
                 raise Hang("result future never completed")     # nothing left to run and nothing running: not time dependent
             result = fut.result(timeout=0)
@@ -1645,10 +1655,190 @@ def probe_completion_resolver_error(ctx):
     return True
 
 
+def probe_default_resolved_deferred_list(ctx, only=None):
+    """
+    NAMED PROBE (deterministic class, every run): a LIST of N objects whose field `v` is left to the DEFAULT resolver and
+    whose value is DEFERRED (an awaitable / Future stored in the object, or an `async def` method), NO middlewares, generic
+    Executor on asyncio and on the thread pool, EVERY completion order of the N values (N = 2, 3), one variant with a
+    failing value (ResolverError). All `items[i].v` are in flight at once. Oracle = the statement: every `items[i].v` gets
+    exactly one start hook and exactly one end hook WITH ITS OWN PATH, start before end, and no hook carries another path.
+    The recorder copies `tuple(info.path)` AT HOOK TIME (an info object shared between items is seen with the path it has
+    when the hook fires, not with the one it has at the end of the request).
+    """
+    import asyncio
+    import itertools
+    from concurrent.futures import Future
+    from py_gql import build_schema, process_graphql_query
+    from py_gql.exc import ResolverError
+    from py_gql.execution import Executor, Instrumentation
+    from py_gql.execution.runtime import AsyncIORuntime, ThreadPoolRuntime
+    ok = True
+
+    class Rec(Instrumentation):
+        def __init__(self):
+            self.events = []
+
+        def on_field_start(self, root, context, info):
+            self.events.append(("+", tuple(info.path)))
+
+        def on_field_end(self, root, context, info):
+            self.events.append(("-", tuple(info.path)))
+
+    def judge(n, rec):
+        expected = [("items",)] + [("items", i, "v") for i in range(n)]
+        bad = []
+        for path in expected:
+            st, en = rec.events.count(("+", path)), rec.events.count(("-", path))
+            if st != 1:
+                bad.append(("start-count", path, st))
+            if en != 1:
+                bad.append(("end-count", path, en))
+            if st == 1 and en == 1 and rec.events.index(("+", path)) > rec.events.index(("-", path)):
+                bad.append(("end-before-start", path, 0))
+        for k, path in rec.events:
+            if path not in expected:
+                bad.append(("foreign-path", path, 0))
+        return bad
+
+    def variants():
+        for n in (2, 3):
+            for nonnull in (False, True):
+                for style in ("dict-future", "attr-future", "async-method"):
+                    for failing in (None, 0):
+                        if failing is not None and (nonnull or n == 3):
+                            continue
+                        for order in itertools.permutations(range(n)):
+                            yield n, nonnull, style, failing, order
+
+    def sdl(nonnull):
+        return "type Item { v: Int } type Query { items: %s }" % ("[Item!]!" if nonnull else "[Item]")
+
+    def settle(fut, i, failing):
+        if fut.done():
+            return
+        if failing == i:
+            fut.set_exception(ResolverError("value %d failed" % i))
+        else:
+            fut.set_result(i)
+
+    class Obj:
+        pass
+
+    def run_pool(n, nonnull, style, failing, order):
+        futs = [Future() for _ in range(n)]
+        if style == "dict-future":
+            items = [{"v": f} for f in futs]
+        else:
+            items = []
+            for f in futs:
+                o = Obj()
+                o.v = f if style == "attr-future" else (lambda c, info, f=f: f)
+                items.append(o)
+        schema = build_schema(sdl(nonnull))
+        schema.register_resolver("Query", "items", lambda *a, **k: items)
+        rec = Rec()
+        rt = ThreadPoolRuntime(max_workers=1)
+        try:
+            wd = W08.watchdog(single_threaded=True)
+            with wd:
+                out = process_graphql_query(schema, "{ items { v } }", instrumentation=rec, runtime=rt, executor_cls=Executor)
+                for i in order:
+                    settle(futs[i], i, failing)
+                if not out.done():
+                    return rec, "pending"
+                out.result()
+        finally:
+            rt._inner.shutdown(wait=False)
+        return rec, None
+
+    def run_aio(n, nonnull, style, failing, order):
+        loop = asyncio.new_event_loop()
+        try:
+            futs = [loop.create_future() for _ in range(n)]
+            if style == "dict-future":
+                items = [{"v": f} for f in futs]
+            else:
+                items = []
+                for f in futs:
+                    o = Obj()
+                    if style == "attr-future":
+                        o.v = f
+                    else:
+                        async def method(c, info, f=f):
+                            return await f
+                        o.v = method
+                    items.append(o)
+            schema = build_schema(sdl(nonnull))
+            schema.register_resolver("Query", "items", lambda *a, **k: items)
+            rec = Rec()
+
+            async def main():
+                task = asyncio.ensure_future(process_graphql_query(
+                    schema, "{ items { v } }", instrumentation=rec, runtime=AsyncIORuntime(loop=loop, execute_blocking_functions_in_thread=False),
+                    executor_cls=Executor))
+                for _ in range(6):
+                    await asyncio.sleep(0)
+                for i in order:
+                    settle(futs[i], i, failing)
+                    for _ in range(6):
+                        await asyncio.sleep(0)
+                return await asyncio.wait_for(task, 10)
+            try:
+                loop.run_until_complete(main())
+            except asyncio.TimeoutError:
+                return rec, "pending"
+            return rec, None
+        finally:
+            try:
+                loop.close()
+            except Exception:  # noqa
+                pass
+
+    runs = 0
+    reported = set()
+    for n, nonnull, style, failing, order in variants():
+        for cfg, runner in (("threadpool", run_pool), ("asyncio", run_aio)):
+            if cfg == "threadpool" and style == "async-method":
+                continue
+            if only is not None and [cfg, n, nonnull, style, failing, list(order)] != only:
+                continue
+            ctx.count()
+            runs += 1
+            try:
+                rec, status = runner(n, nonnull, style, failing, order)
+            except KeyboardInterrupt:
+                raise
+            except W08.Watchdog:        # the code under test blocks the calling thread: never completes = C08's subject
+                ctx.stat("probe:default-resolved-deferred-list:blocks")
+                continue
+            except Exception:  # noqa  -- an escaping exception produces no outcome: outside the statement (C08's subject)
+                ctx.stat("probe:default-resolved-deferred-list:raised")
+                continue
+            if status is not None:      # never completes: C08's subject
+                ctx.stat("probe:default-resolved-deferred-list:" + status)
+                continue
+            ctx.nontrivial(("default-deferred-list", cfg, n, nonnull, style, failing, order))
+            bad = judge(n, rec)
+            if bad:
+                ok = False
+                what = sorted(set(b[0] for b in bad))
+                sig = "c16:default-resolved-deferred-list:%s:%s" % (cfg, "+".join(what))
+                if sig in reported:
+                    continue
+                reported.add(sig)
+                ctx.fail(sig,
+                         "list of %d objects, field v default-resolved with a deferred value (%s), no middleware, %s, completion order %s: %s; "
+                         "events %s" % (n, style, cfg, list(order), bad[:4], rec.events),
+                         {"probe": "default-resolved-deferred-list", "only": [cfg, n, nonnull, style, failing, list(order)]})
+    ctx.extra["default_resolved_deferred_list_runs"] = ctx.extra.get("default_resolved_deferred_list_runs", 0) + runs
+    return ok
+
+
 def run(ctx):
     try:
         probe_completion_resolver_error(ctx)
         probe_exception_outcome(ctx)
+        probe_default_resolved_deferred_list(ctx)
         cases = corpus_cases() + exhaustive_cases()
         ctx.extra["exhaustive_block_cases"] = len(cases)
         check_cases(ctx, cases)
@@ -1682,6 +1872,8 @@ def replay(ctx, data):
         return probe_completion_resolver_error(ctx)
     if data.get("input", {}).get("probe") == "exception-outcome":
         return probe_exception_outcome(ctx)
+    if data.get("input", {}).get("probe") == "default-resolved-deferred-list":
+        return probe_default_resolved_deferred_list(ctx, only=data["input"].get("only"))
     case = data.get("input", {}).get("case")
     if case is None:
         return True
